@@ -5,7 +5,7 @@ from common import hexs
 PROP = "C04"
 HARNESS = "tok"
 COMPONENT = "tok"
-TIE = ["TranslatedTok"]      # Lemmas/TranslatedTok.lean: Model/Tokener.lean validateUtf8 = json_tokener_validate_utf8 as translated by tools/extract/c2lean.py
+TIE = ["TranslatedTok", "TranslatedReset"]      # Lemmas/TranslatedReset.lean: json_tokener_reset / json_tokener_reset_level as translated (every level depth..0 reset exactly once, release before the slot is cleared, depth/err/high_surrogate zeroed = the model's reset); Lemmas/TranslatedTok.lean: Model/Tokener.lean validateUtf8 = json_tokener_validate_utf8 as translated by tools/extract/c2lean.py
 VARIANT = "asan"
 RULE = ("byte strings (random over a JSON-heavy alphabet, grammar output, mutated grammar output with NUL / invalid UTF-8 / "
         "extension snippets) x flag sets x depth limits {1,2,3,32} x chunkings (one shot, two, random, byte-wise, len=-1), and "
@@ -27,7 +27,7 @@ MANIFEST = dict(
          "same depth and flags returns (simulation relation Eqv: the fields reset leaves behind - pb, st_pos, is_double, ucs_char, quote_char - are "
          "dead while a level waits for a value); the differential run additionally compares a reset twin with a fresh parser.",
     note="Trusted: Lean kernel + propext/Classical.choice/Quot.sound; tools/extract; harness/tok.c + Driver/Tok.lean; ASan/UBSan as observers. The "
-         "model is hand-written; that the C code computes indices as the model does rests on the correspondence run. Allocation success assumed (C08). Tie by translation (new): json_tokener_validate_utf8 is translated from clang's typed AST of the current source into Lean on every run (tools/extract/c2lean.py -> Generated/Translated.lean) and Lemmas/TranslatedTok.lean proves that the model's validateUtf8 returns the same verdict and pending count for every byte (as the signed char it arrives in; the bit tests compared for all 256 bytes by kernel evaluation, `decide +kernel`, no axiom) and every pending count (validate_first, cont_test, validate_cont).",
+         "model is hand-written; that the C code computes indices as the model does rests on the correspondence run. Allocation success assumed (C08). Tie by translation (new): json_tokener_validate_utf8 is translated from clang's typed AST of the current source into Lean on every run (tools/extract/c2lean.py -> Generated/Translated.lean) and Lemmas/TranslatedTok.lean proves that the model's validateUtf8 returns the same verdict and pending count for every byte (as the signed char it arrives in; the bit tests compared for all 256 bytes by kernel evaluation, `decide +kernel`, no axiom) and every pending count (validate_first, cont_test, validate_cont). json_tokener_reset and json_tokener_reset_level are translated too and Lemmas/TranslatedReset.lean proves, for every depth, that reset calls reset_level for depth, depth-1, ..., 0 exactly once each and then writes depth = 0, err = success, high_surrogate = 0 (the model's reset), and that reset_level writes eatws/start, gives up `current` and frees `obj_field_name` before clearing each slot (reset_level_trace, loop_agrees, reset_sweeps, reset_null).",
     technique="Lean 4 proof (representation invariant + rank/termination, induction over input and call history) + model/implementation correspondence run + agreement theorems with Lean definitions translated from the current C source (clang AST) on every run",
     design="6/C04")
 
